@@ -321,7 +321,15 @@ func Drive(s *Sink, done <-chan struct{}, ch Chooser, maxSteps int, snapshot boo
 			continue
 		}
 		if snapshot {
-			s.Note(Event{E: "Q", Set: ids})
+			gated := false
+			for _, id := range ids {
+				if strings.HasPrefix(id, "G|") {
+					gated = true
+				}
+			}
+			if !gated {
+				s.Note(Event{E: "Q", Set: ids})
+			}
 		}
 		if out.Steps >= maxSteps {
 			out.Timeout = true
